@@ -184,9 +184,34 @@ func runC15(c *CaseCtx) (res CaseResult) {
 	// observes can then only come from the built function, unambiguously
 	in := genValueListOver(r, r.Intn(4), r.Intn(3) == 0, true, []int{0, 1, 2}, false)
 	out := genValueListOver(r, 1+r.Intn(3), false, true, []int{3, 4, 5}, true)
+	// variant: a named and a type-only output of ONE type; a consumer asking
+	// for that type under another name can only be served by the type-only one
+	outIdx := []int{}
+	sameTypePair := r.Intn(4) == 0
+	var consIn []Label
+	if sameTypePair {
+		tt := 3 + r.Intn(3)
+		out = []Label{{Name: "a", Type: tt}, {Type: tt}}
+		consIn = []Label{{Name: "b", Type: tt}}
+		outIdx = []int{1}
+		if r.Intn(2) == 0 {
+			t2 := 3 + (tt-3+1)%3
+			out = append(out, Label{Type: t2})
+			consIn = append(consIn, Label{Type: t2})
+			outIdx = append(outIdx, 2)
+		}
+	} else {
+		consIn = append([]Label{}, out...)
+		for i := range out {
+			outIdx = append(outIdx, i)
+		}
+	}
 	spec := FuncSpec{In: in, Out: out, InForm: FormBuilt, OutForm: FormBuilt, HasErr: true, CaseMix: true}
-	fail := r.Intn(8) == 0
-	spec.Fail = fail
+	// the callback fails in some calls of the history and succeeds in others
+	failMask := 0
+	if r.Intn(3) == 0 {
+		failMask = r.Intn(64)
+	}
 	det["built"] = spec.String()
 	unamb := true
 	for i, l := range in {
@@ -200,6 +225,10 @@ func runC15(c *CaseCtx) (res CaseResult) {
 		}
 	}
 	w := NewWorld()
+	curCall := 0
+	w.FailOn = func(fi, exec int, specFail bool) bool {
+		return (fi == 0 || fi == 1) && failMask&(1<<uint(curCall%6)) != 0
+	}
 	b, err := w.Build(0, spec, r)
 	if err != nil {
 		res.violate("C15", "buildfunc-rejected", "BuildFunc rejected well-formed value sets: "+err.Error(), det)
@@ -217,7 +246,7 @@ func runC15(c *CaseCtx) (res CaseResult) {
 		return res
 	}
 	// consuming target: takes every output of the built function
-	cons := FuncSpec{In: append([]Label{}, out...), InForm: FormStruct, OutForm: FormPos}
+	cons := FuncSpec{In: consIn, InForm: FormStruct, OutForm: FormPos}
 	ct, err := w.Build(-1, cons, r)
 	if err != nil {
 		res.Skip = "consumer"
@@ -226,6 +255,11 @@ func runC15(c *CaseCtx) (res CaseResult) {
 	seenIDs := map[int64]bool{}
 	ncalls := 1 + r.Intn(6)
 	for k := 0; k < ncalls; k++ {
+		curCall = k
+		fail := failMask&(1<<uint(k%6)) != 0
+		if fail {
+			res.obs("calls_with_failing_callback", 1)
+		}
 		supply := func(call int) ([]am.Arg, []int64) {
 			var args []am.Arg
 			var sid []int64
@@ -369,7 +403,7 @@ func runC15(c *CaseCtx) (res CaseResult) {
 				for i, a := range te.Args {
 					ok := false
 					for _, cb := range cbs {
-						if a.ID == cb.Outs[i] {
+						if a.ID == cb.Outs[outIdx[i]] {
 							ok = true
 						}
 					}
